@@ -1,9 +1,24 @@
 """Runs the real dadi.PhiManip population constructors, in-place pulse functions, remove_pop, filter_pops and
 reorder_pops (rebuilt overlay) on the generated cases.
 
-case: {id, op: pulse|cons|split12|remove|filter|reorder, fn, shape, grids (grid parameters in signature order),
-       ps (proportion parameters in signature order), phi (C-order flat), arg (popnum | tokeep | neworder)}
-result: {id, raised: bool, error, shape, res (C-order flat)}   -- only ValueError counts as a rejection
+case: {id, layout, perm, shape, phi (C-order flat LOGICAL content), steps: [step, ...]}
+step: {op: pulse|cons|split12|remove|filter|reorder, fn, grids (grid parameters in signature order),
+       ps (proportion parameters in signature order), arg (popnum | tokeep | neworder),
+       commute: {fn, ps} (optional; the step before must be a reorder)}
+The density handed to the first step holds the logical content `phi` in the memory layout `layout`:
+  C        freshly allocated, C-contiguous
+  F        Fortran-ordered copy
+  T        transposed view (axes `perm`) of a C-contiguous array
+  neg      view with negative strides along every axis
+  strided  every other cell of a larger NaN-filled array along every axis (the grids are strided views too)
+Every later step receives THE OBJECT the step before returned (no copy in between): the documented way of chaining,
+phi = PhiManip.f(phi, ...).
+result: {id, steps: [{raised, error, shape, res (C-order flat logical content of the returned density),
+                      in_c, in_f (contiguity of the incoming array), same_obj (returned object is the argument),
+                      arg_holds (the argument holds the returned density after the call),
+                      layout_dev (max |result - result on a fresh C-contiguous copy of the same content|),
+                      commute (flat: reorder(g(content before the reorder)) for the permuted pulse g)}]}
+-- only ValueError counts as a rejection
 """
 import sys, json, warnings
 warnings.filterwarnings('ignore')
@@ -12,44 +27,128 @@ np.seterr(all='ignore')
 import dadi
 from dadi import PhiManip, Demes
 
-def run(c):
-    phi = np.array(c['phi'], dtype=float).reshape(c['shape']).copy()
-    grids = [np.array(g, dtype=float) for g in c['grids']]
-    ps = list(c['ps'])
-    op = c['op']
+def lay(L, layout, perm):
+    d = L.ndim
+    if layout == 'C':
+        return np.array(L, order='C', copy=True)
+    if layout == 'F':
+        return np.array(L, order='F', copy=True)
+    if layout == 'T':
+        inv = [int(i) for i in np.argsort(perm)]
+        base = np.ascontiguousarray(L.transpose(inv))
+        return base.transpose(perm)
+    rev = (slice(None, None, -1),) * d
+    if layout == 'neg':
+        base = np.ascontiguousarray(L[rev])
+        return base[rev]
+    if layout == 'strided':
+        big = np.full([2 * n + 1 for n in L.shape], np.nan)
+        sl = (slice(1, None, 2),) * d
+        big[sl] = L
+        return big[sl]
+    raise RuntimeError('unknown layout ' + str(layout))
+
+def lay_grid(g, layout):
+    g = np.array(g, dtype=float)
+    if layout == 'neg':
+        return np.ascontiguousarray(g[::-1])[::-1]
+    if layout == 'strided':
+        big = np.full(2 * len(g) + 1, np.nan)
+        big[1::2] = g
+        return big[1::2]
+    return g
+
+def call(st, phi, grids):
+    ps = list(st.get('ps') or [])
+    op = st['op']
+    fn = st['fn']
     Demes.cache = []
     if op == 'pulse':
-        out = getattr(PhiManip, c['fn'])(phi, *ps, *grids)
-    elif op == 'cons':
-        if c['fn'] in ('phi_2D_to_3D_split_1', 'phi_2D_to_3D_split_2'):
-            out = getattr(PhiManip, c['fn'])(grids[0], phi)
-        else:
-            out = getattr(PhiManip, c['fn'])(phi, *ps, *grids)
-    elif op == 'split12':
-        out = PhiManip.phi_1D_to_2D(grids[0], phi)
-    elif op == 'remove':
-        out = PhiManip.remove_pop(phi, grids[0], c['arg'])
-    elif op == 'filter':
-        out = PhiManip.filter_pops(phi, grids[0], list(c['arg']))
-    elif op == 'reorder':
-        out = PhiManip.reorder_pops(phi, list(c['arg']))
-    else:
-        raise RuntimeError('unknown op ' + op)
-    out = np.asarray(out, dtype=float)
-    return out
+        return getattr(PhiManip, fn)(phi, *ps, *grids)
+    if op == 'cons':
+        if fn in ('phi_2D_to_3D_split_1', 'phi_2D_to_3D_split_2'):
+            return getattr(PhiManip, fn)(grids[0], phi)
+        return getattr(PhiManip, fn)(phi, *ps, *grids)
+    if op == 'split12':
+        return PhiManip.phi_1D_to_2D(grids[0], phi)
+    if op == 'remove':
+        return PhiManip.remove_pop(phi, grids[0], st['arg'])
+    if op == 'filter':
+        return PhiManip.filter_pops(phi, grids[0], list(st['arg']))
+    if op == 'reorder':
+        return PhiManip.reorder_pops(phi, list(st['arg']))
+    raise RuntimeError('unknown op ' + op)
+
+def flat(a):
+    return [float(t) for t in np.ascontiguousarray(np.asarray(a, dtype=float)).ravel()]
+
+def run(c):
+    layout = c.get('layout', 'C')
+    L = np.array(c['phi'], dtype=float).reshape(c['shape'])
+    x = lay(L, layout, c.get('perm'))
+    if not (x.shape == L.shape and np.array_equal(x, L, equal_nan=True)):
+        raise RuntimeError('driver: layout %s does not hold the logical content' % layout)
+    recs = []
+    before_prev = None
+    for j, st in enumerate(c['steps']):
+        rec = {'raised': False}
+        recs.append(rec)
+        plain = layout in ('C', 'F', 'T') or j > 0
+        grids = [np.array(g, dtype=float) if plain else lay_grid(g, layout) for g in st['grids']]
+        x = np.asarray(x) if not isinstance(x, np.ndarray) else x
+        rec['in_c'] = bool(x.flags['C_CONTIGUOUS']); rec['in_f'] = bool(x.flags['F_CONTIGUOUS'])
+        before = np.array(x, order='C', copy=True)
+        try:
+            out = call(st, x, grids)
+            rec['same_obj'] = out is x
+            rec['shares'] = bool(isinstance(out, np.ndarray) and np.shares_memory(out, x))
+            o = np.asarray(out, dtype=float)
+            rec['shape'] = [int(n) for n in o.shape]
+            rec['res'] = flat(o)
+            rec['arg_holds'] = bool(x.shape == o.shape and np.array_equal(x, o, equal_nan=True))
+        except ValueError as e:
+            rec['raised'] = True
+            rec['error'] = 'ValueError: ' + str(e)[:160]
+            break
+        except Exception as e:
+            rec['crashed'] = True
+            rec['error'] = type(e).__name__ + ': ' + str(e)[:160]
+            break
+        # the same content, freshly laid out: a density operator is a function of the values only
+        if not (rec['in_c'] and j == 0 and layout == 'C'):
+            try:
+                ref = np.asarray(call(st, before.copy(), [np.array(g, dtype=float) for g in st['grids']]), dtype=float)
+                if ref.shape != o.shape:
+                    rec['layout_dev'] = None; rec['layout_shape'] = [int(n) for n in ref.shape]
+                else:
+                    dv = np.abs(ref - o)
+                    rec['layout_dev'] = float(np.nanmax(dv)) if dv.size else 0.0
+                    if not np.array_equal(np.isnan(ref), np.isnan(o)):
+                        rec['layout_dev'] = float('inf')
+                    rec['layout_at'] = [int(t) for t in np.unravel_index(int(np.nanargmax(dv)), dv.shape)] if dv.size and not np.all(np.isnan(dv)) else []
+            except Exception as e:
+                rec['layout_error'] = type(e).__name__ + ': ' + str(e)[:160]
+        # reordering commutes with the pulse: pulse_f(reorder(b)) == reorder(pulse_g(b)) for the permuted pulse g
+        cm = st.get('commute')
+        if cm and before_prev is not None and j > 0 and c['steps'][j - 1]['op'] == 'reorder':
+            try:
+                g = getattr(PhiManip, cm['fn'])(before_prev.copy(), *cm['ps'], *[np.array(t, dtype=float) for t in st['grids']])
+                alt = PhiManip.reorder_pops(g, list(c['steps'][j - 1]['arg']))
+                rec['commute'] = flat(alt)
+                rec['commute_shape'] = [int(n) for n in np.shape(alt)]
+            except Exception as e:
+                rec['commute_error'] = type(e).__name__ + ': ' + str(e)[:160]
+        before_prev = before
+        x = out
+    return recs
 
 def main():
     cases = json.load(sys.stdin)
     res = []
     for c in cases:
-        rec = {'id': c['id'], 'raised': False}
+        rec = {'id': c['id']}
         try:
-            out = run(c)
-            rec['shape'] = [int(n) for n in out.shape]
-            rec['res'] = [float(t) for t in np.ascontiguousarray(out).ravel()]
-        except ValueError as e:
-            rec['raised'] = True
-            rec['error'] = 'ValueError: ' + str(e)[:160]
+            rec['steps'] = run(c)
         except Exception as e:
             rec['crashed'] = True
             rec['error'] = type(e).__name__ + ': ' + str(e)[:160]
